@@ -12,6 +12,7 @@ use sierradb::cache::SegmentBlockCache;
 use sierradb_cluster::ClusterActor;
 use sierradb_cluster::subscription::SubscriptionEvent;
 use tokio::io::{self, AsyncReadExt, AsyncWriteExt};
+#[cfg(not(feature = "verif"))]
 use tokio::net::{TcpListener, TcpStream, ToSocketAddrs};
 use tokio::sync::{mpsc, watch};
 use tokio::task::JoinSet;
@@ -20,6 +21,13 @@ use tracing::{debug, warn};
 use uuid::Uuid;
 
 use crate::request::{Command, encode_event, number, simple_str};
+
+/// The byte stream of a client connection: a TCP stream, or, under simulation, one end of an
+/// in-memory duplex pipe whose other end the simulator holds.
+#[cfg(not(feature = "verif"))]
+pub type ConnStream = TcpStream;
+#[cfg(feature = "verif")]
+pub type ConnStream = tokio::io::DuplexStream;
 
 pub struct Server {
     cluster_ref: ActorRef<ClusterActor>,
@@ -51,6 +59,23 @@ impl Server {
         }
     }
 
+    /// Serves one simulated client connection (the simulator holds the other end of the pipe).
+    #[cfg(feature = "verif")]
+    pub async fn verif_serve(&self, stream: ConnStream) -> io::Result<()> {
+        Conn::new(
+            self.cluster_ref.clone(),
+            self.caches.clone(),
+            self.num_partitions,
+            self.cache_capacity_bytes,
+            self.strict_versioning,
+            stream,
+            self.shutdown.clone(),
+        )
+        .run()
+        .await
+    }
+
+    #[cfg(not(feature = "verif"))]
     pub async fn listen(mut self, addr: impl ToSocketAddrs) -> io::Result<JoinSet<io::Result<()>>> {
         let listener = TcpListener::bind(addr).await?;
         loop {
@@ -100,7 +125,7 @@ pub struct Conn {
     pub num_partitions: u16,
     pub cache_capacity_bytes: usize,
     pub strict_versioning: bool,
-    pub stream: TcpStream,
+    pub stream: ConnStream,
     pub shutdown: CancellationToken,
     pub read: BytesMut,
     pub write: BytesMut,
@@ -118,7 +143,7 @@ impl Conn {
         num_partitions: u16,
         cache_capacity_bytes: usize,
         strict_versioning: bool,
-        stream: TcpStream,
+        stream: ConnStream,
         shutdown: CancellationToken,
     ) -> Self {
         let read = BytesMut::new();
